@@ -1,4 +1,5 @@
 """C11 — request isolation: every probe is answered as on a fresh engine over a copy of the database."""
+import json
 import os
 import shutil
 import sys
@@ -252,10 +253,98 @@ def run(ctx):
                               "plain_wrapped_plain_part", seed_base=850000)
     real_crypto_part(ctx)
     session_part(ctx)
+    decode_ahead_part(ctx)
     # M17: connections one after the other on one store, byte for byte against the composed model, and the
     # fresh-server probe at the connection level
     import e2e_hook
     e2e_hook.run(ctx, ["c11"])
+
+
+def decode_ahead_case(seed):
+    """Two sessions decode their requests OUTSIDE the engine lock (session.py), so `decode A, decode B, process A,
+    process B` is an ordinary schedule of two connections.  The request a session decoded is its own: what another
+    connection decodes in between changes nothing about it.  Two real engines on the same generated history; on the
+    first every pair of requests (often the same operation with different parameters) is decoded ahead, both, before
+    either is processed; on the second each is decoded when its turn comes: answers and stores must be equal.
+    Implementation against implementation, through the real encoder and decoder."""
+    import gen_engine
+    import impl_engine
+    import diff_engine
+    g = gen_engine.Gen(seed, dict(PROFILE, no_internal_script=True, restart=0.0))
+    E1, E2 = impl_engine.ImplEngine(), impl_engine.ImplEngine()
+    fails, pairs, same_op = [], 0, 0
+    try:
+        def both(line):
+            try:
+                o1 = E1.handle(json.loads(json.dumps(line)))
+                o2 = E2.handle(json.loads(json.dumps(line)))
+            except impl_engine.BuildRefused:
+                return None
+            g.observe(line, o2)
+            return o2
+        for _ in range(g.ch([6, 8, 10])):
+            both(g.line(ops=[g.ch(["create", "create", "register", "createKeyPair", "activate"])], nitems=1))
+        for _ in range(g.ch([5, 6, 8])):
+            la = g.line(version=g.ch([10, 11, 12, 13, 14]))
+            ops_a = [it["op"] for it in la["req"]["items"]]
+            if g.p(0.6):
+                nb = len(ops_a) if g.p(0.5) else 1
+                lb = g.line(ops=ops_a[:nb], nitems=nb, version=la["req"]["version"])
+                if g.p(0.5):
+                    lb["id"] = la["id"]
+            else:
+                lb = g.line(version=g.ch([10, 11, 12, 13, 14]))
+            mA, mB = E1.decode_wire(la["req"]), E1.decode_wire(lb["req"])
+            if mA is None or mB is None:
+                both(la)
+                both(lb)
+                continue
+            pairs += 1
+            same_op += 1 if ops_a[0] == lb["req"]["items"][0]["op"] else 0
+            outs1, outs2 = [], []
+            for ln, m in ((la, mA), (lb, mB)):
+                E1._use_msg = m
+                outs1.append(E1.handle(json.loads(json.dumps(ln))))
+            for ln in (la, lb):
+                E2._use_msg = E2.decode_wire(ln["req"])
+                o = E2.handle(json.loads(json.dumps(ln)))
+                outs2.append(o)
+                g.observe(ln, o)
+            for who, ln, a, b in (("first", la, outs1[0], outs2[0]), ("second", lb, outs1[1], outs2[1])):
+                if diff_engine.obs_out(a) != diff_engine.obs_out(b):
+                    fails.append(("c11:outcome-depends-on-request-decoded-meanwhile:%s" % ln["req"]["items"][0]["op"],
+                                  "the %s of two requests [%s | %s]: decoded when its turn comes it is answered %s; with both "
+                                  "decoded before either is processed, %s"
+                                  % (who, json.dumps(la["req"]["items"])[:300], json.dumps(lb["req"]["items"])[:300],
+                                     json.dumps(diff_engine.obs_out(b))[:200], json.dumps(diff_engine.obs_out(a))[:200])))
+            d1, d2 = E1.dump(), E2.dump()
+            if not fails and d1.get("objs") != d2.get("objs"):
+                fails.append(("c11:store-depends-on-request-decoded-meanwhile:%s" % ops_a[0],
+                              "after [%s | %s] the stores differ between 'both decoded ahead' and 'each decoded in turn'"
+                              % (json.dumps(la["req"]["items"])[:300], json.dumps(lb["req"]["items"])[:300])))
+            if fails:
+                break
+    finally:
+        E1.close()
+        E2.close()
+    return fails, pairs, same_op
+
+
+def decode_ahead_part(ctx):
+    import multiprocessing
+    n = 60 if ctx.tier == "quick" else 1500
+    seeds = [ctx.seed * 7103 + 42000 + i for i in range(n)]
+    with multiprocessing.get_context("fork").Pool(12) as pool:
+        res = pool.map(decode_ahead_case, seeds)
+    pairs = same = 0
+    for sd, (fails, k, so) in zip(seeds, res):
+        pairs += k
+        same += so
+        for sig, what in fails[:1]:
+            ctx.report(sig, what, {"kind": "decode-ahead", "seed": sd})
+    ctx.coverage["decode_ahead_pairs"] = pairs
+    ctx.coverage["decode_ahead_pairs_same_operation"] = same
+    ctx.coverage["evaluations"] = ctx.coverage.get("evaluations", 0) + 2 * pairs
 
 
 def real_crypto_case(seed):
@@ -364,6 +453,11 @@ def replay(ctx, rep):
     if r.get("kind") == "server-e2e":
         import e2e_hook
         return e2e_hook.replay(ctx, rep)
+    if r.get("kind") == "decode-ahead":
+        fails, _k, _s = decode_ahead_case(r["seed"])
+        for sig, what in fails:
+            print("  %s: %s" % (sig, what[:600]))
+        return not fails
     if r.get("kind") == "real-crypto":
         fails, _n = real_crypto_case(r["seed"])
         for sig, what in fails:
